@@ -16,6 +16,8 @@ pub enum Case {
     SameListSequence { nuni: usize },
     /// a menu of large numbers (size names) read back through a menu of requested lists
     Large { size: usize },
+    /// names that differ only by letter case, or by one character, are different variables
+    CaseNames,
     /// a first-order number with 70 000 names (stored positions beyond 65 535) read back through short requests
     Huge,
     /// numbers with an infinite or overflowing second derivative (as x^1.5 has at 0) or gradient entry: every other
@@ -80,6 +82,10 @@ fn cases(tier: Tier) -> Vec<Case> {
         out.push(Case::NonFinite { which });
     }
     out.push(Case::Huge);
+    out.push(Case::CaseNames);
+    // a variable whose first derivative AND own second derivative are zero while a cross derivative is not
+    out.push(Case::ReadBack { nuni, x: NumSpec { v: 1.5, names: vec![0, 1], g: vec![0.0, 1.25], h: vec![0.0, 1.5, 1.5, 0.75] } });
+    out.push(Case::ReadBack { nuni, x: NumSpec { v: 1.5, names: vec![2, 0, 1], g: vec![0.0, 0.0, 2.0], h: vec![0.0, 0.5, -0.75, 0.5, 0.0, 0.0, -0.75, 0.0, 0.0] } });
     let pn = 3;
     let fs = operands(pn, 1.5, 0, true);
     let gs = operands(pn, -2.5, 1, true);
@@ -363,6 +369,62 @@ pub fn check(case: &Case, idx: u64, acc: &mut Acc) {
             }
             acc.sample(cj);
         }
+        Case::CaseNames => {
+            acc.nontrivial();
+            let sets: [(&[&str], &[&[&str]]); 3] = [
+                (&["k", "K"], &[&["K", "k"], &["k", "K"], &["K"], &["k"], &["K", "K2", "k"]]),
+                (&["fx_eurusd", "r0"], &[&["fx_EURUSD", "r0"], &["FX_EURUSD", "R0"], &["r0", "fx_eurusd"], &["fx_eurusd", "R0"]]),
+                (&["Ab", "aB", "ab"], &[&["ab", "Ab", "aB"], &["AB", "ab"], &["aB", "Ab", "ab"], &["ab", "aB", "Ab"]]),
+            ];
+            for (stored, reqs) in sets.iter() {
+                let n = stored.len();
+                let names: Vec<String> = stored.iter().map(|s| s.to_string()).collect();
+                let g: Vec<f64> = (0..n).map(|i| 1.5 + i as f64).collect();
+                let mut h = vec![0.0; n * n];
+                for i in 0..n {
+                    for j in 0..n {
+                        h[i * n + j] = 0.25 * (1 + i + j) as f64 + if i == j { 1.0 } else { 0.0 };
+                    }
+                }
+                let d1 = rateslib::dual::Dual::try_new(0.5, names.clone(), g.clone()).unwrap();
+                let d2 = Dual2::try_new(0.5, names.clone(), g.clone(), h.iter().map(|x| 0.5 * x).collect()).unwrap();
+                for req in reqs.iter() {
+                    acc.evals_add(3);
+                    let rn: Vec<String> = req.iter().map(|s| s.to_string()).collect();
+                    let pos: Vec<Option<usize>> = req.iter().map(|r| stored.iter().position(|s| s == r)).collect();
+                    let w1: Vec<f64> = pos.iter().map(|p| p.map(|k| g[k]).unwrap_or(0.0)).collect();
+                    if d1.gradient1(rn.clone()).to_vec() != w1 || d2.gradient1(rn.clone()).to_vec() != w1 {
+                        acc.violate("case-names/gradient1", idx, cj(), json!({"stored": stored, "request": req, "want": w1}), json!(d1.gradient1(rn.clone()).to_vec()));
+                    }
+                    let hh = d2.gradient2(rn.clone());
+                    let mut bad = hh.shape() != [req.len(), req.len()];
+                    if !bad {
+                        for (i, a) in pos.iter().enumerate() {
+                            for (j, b) in pos.iter().enumerate() {
+                                let w = match (a, b) {
+                                    (Some(p), Some(q)) => h[p * n + q],
+                                    _ => 0.0,
+                                };
+                                if hh[[i, j]] != w {
+                                    bad = true;
+                                }
+                            }
+                        }
+                    }
+                    if bad {
+                        acc.violate("case-names/gradient2", idx, cj(), json!({"stored": stored, "request": req}), json!(format!("{:?}", hh)));
+                    }
+                }
+                // arithmetic keeps them apart as well
+                let other = rateslib::dual::Dual::try_new(2.0, stored.iter().map(|s| s.to_uppercase()).collect::<std::collections::BTreeSet<_>>().into_iter().collect(), vec![1.0; stored.iter().map(|s| s.to_uppercase()).collect::<std::collections::BTreeSet<_>>().len()]).unwrap();
+                let sum = &d1 + &other;
+                let all: std::collections::BTreeSet<String> = stored.iter().map(|s| s.to_string()).chain(other.vars().iter().cloned()).collect();
+                if sum.vars().len() != all.len() {
+                    acc.violate("case-names/arithmetic-merges-names", idx, cj(), json!(all), json!(sum.vars().iter().cloned().collect::<Vec<_>>()));
+                }
+            }
+            acc.sample(cj);
+        }
         Case::Huge => {
             let size = 70_000usize;
             let name = |i: usize| format!("v{}", i);
@@ -587,7 +649,7 @@ pub fn run(ctx: &Ctx, replay_file: Option<String>) -> ! {
          Hessians and every requested list. Larger numbers on a menu (3..33 names) through a request menu that is the product of selection (all stored names, one omitted at the \
          front / second / middle / end, every other, contiguous blocks, a block with one name replaced by a name stored elsewhere, scattered names) x order \
          (stored, reversed, two interior names swapped, interior reversed, rotated, ends swapped) x padding with absent names (none, interleaved, \
-         4*size+2 absent names in front / behind / spread through). Every number is also built through clone_from with a reversed-memory gradient and a column-major Hessian and must answer every request as its standard form does. A first-order number with 70 000 names read back through seven short requests around position 65 535. Numbers with an infinite / overflowing Hessian entry or an infinite gradient entry: every requested list still reads every other entry back exactly. History independence: every requested list put, in a row on one thread, to \
+         4*size+2 absent names in front / behind / spread through). Every number is also built through clone_from with a reversed-memory gradient and a column-major Hessian and must answer every request as its standard form does. Names that differ only by letter case are different variables (three name sets, requests that swap the cases, arithmetic). Numbers with a variable whose gradient and own second derivative are zero while a cross derivative is not. A first-order number with 70 000 names read back through seven short requests around position 65 535. Numbers with an infinite / overflowing Hessian entry or an infinite gradient entry: every requested list still reads every other entry back exactly. History independence: every requested list put, in a row on one thread, to \
          every layout of a 3-name pool, each number built fresh and dropped before the next. Non-trivial: requests that differ from the stored list.",
         json!({"names": 4, "requested_lists": ordered_sublists(5).len(), "cases": cs.len()}),
     )
